@@ -233,7 +233,9 @@ fn timeouts_of(code: i64) -> Timeouts {
     let d = |x: i64| match x {
         0 => None,
         1 => Some(Duration::ZERO),
-        _ => Some(Duration::from_millis(50)),
+        // "finite": any non-zero duration; H1 has no runtime, so only zero / non-zero matters.
+        // Tiny (sub-millisecond) values on purpose.
+        _ => Some(Duration::from_nanos(1 + (code as u64 % 7) * 137)),
     };
     Timeouts {
         wait: d(code % 3),
@@ -287,9 +289,18 @@ impl World {
             next_oid: AtomicUsize::new(0),
             stamps: Mutex::new(BTreeMap::new()),
         });
-        let mut b = Pool::builder(Mgr { log: log.clone() })
-            .max_size(cfg.max)
-            .queue_mode(if cfg.lifo { QueueMode::Lifo } else { QueueMode::Fifo });
+        let qm = if cfg.lifo { QueueMode::Lifo } else { QueueMode::Fifo };
+        // both ways of configuring a pool are used (decided by the configuration itself, so that a
+        // replay builds the same pool)
+        let mut b = if (cfg.max + cfg.pre.len() + cfg.post.len()) % 2 == 0 {
+            Pool::builder(Mgr { log: log.clone() }).config(managed::PoolConfig {
+                max_size: cfg.max,
+                timeouts: Timeouts::default(),
+                queue_mode: qm,
+            })
+        } else {
+            Pool::builder(Mgr { log: log.clone() }).max_size(cfg.max).queue_mode(qm)
+        };
         for (k, a) in cfg.pre.iter().enumerate() {
             b = b.pre_recycle(make_hook(log.clone(), K_PRE, k as u8, *a));
         }
@@ -341,7 +352,7 @@ impl World {
                 o.extend([
                     1,
                     s.permits as i64,
-                    s.closed as i64,
+                    p.is_closed() as i64, // through the public API
                     s.size as i64,
                     s.max_size as i64,
                     s.users as i64,
@@ -580,6 +591,7 @@ impl World {
 // ---------------------------------------------------------------- generation
 #[derive(Clone, Copy, PartialEq)]
 enum Profile {
+    Order,  // fill, return in random order, retain a random subset, reuse (C08 / C09)
     Core,   // no resize, no close
     Resize, // resize, no close
     Close,  // close and resize
@@ -825,7 +837,70 @@ fn cleanup(w: World) {
     w.taken.lock().unwrap().clear();
 }
 
+/// run task t alone to its end; gates answer Ok, except with the given percentage Err
+fn run_task(w: &mut World, out: &mut TraceOut, r: &mut Rng, t: i64, err_percent: u64) -> bool {
+    loop {
+        let l = match w.sched.state(t as usize) {
+            Yield::Done(_) => return true,
+            Yield::Gate { .. } => vec![L_ENV, t, if r.chance(err_percent) { 1 } else { 0 }, 0, 0],
+            Yield::Sem => return true,
+            _ => vec![L_STEP, t, 0, 0, 0],
+        };
+        if !run_label(w, out, l) {
+            return false;
+        }
+    }
+}
+
+/// fill the pool, return the objects in a random order, retain a random subset, reuse
+fn gen_order_trace(g: &mut Gen) -> TraceOut {
+    let r = &mut g.rng;
+    let n = 3 + r.below(3) as usize;
+    let hooks = |r: &mut Rng| -> Vec<bool> { (0..r.below(2)).map(|_| r.chance(50)).collect() };
+    let cfg = Cfg { max: n, lifo: r.chance(50), pre: hooks(r), post: hooks(r), pc: vec![] };
+    let mut w = World::new(cfg.clone());
+    let mut out = TraceOut { cfg, labels: vec![], obs: vec![], err: None };
+    let mut ok = true;
+    for _ in 0..n {
+        let t = w.sched.ntasks() as i64;
+        ok = ok && run_label(&mut w, &mut out, vec![L_START, t, OP_GET, 0, 0]) && run_task(&mut w, &mut out, r, t, 0);
+    }
+    // a second round of use so that recycle counts differ
+    let mut rounds = 1 + r.below(2);
+    while ok && rounds > 0 {
+        rounds -= 1;
+        let mut ids: Vec<usize> = w.held.lock().unwrap().keys().cloned().collect();
+        while ok && !ids.is_empty() {
+            let o = ids.swap_remove(r.below(ids.len() as u64) as usize) as i64;
+            let t = w.sched.ntasks() as i64;
+            ok = run_label(&mut w, &mut out, vec![L_START, t, OP_DROP, o, 0]) && run_task(&mut w, &mut out, r, t, 0);
+        }
+        if ok && r.chance(70) {
+            let nb = n as i64;
+            let mask = r.below(1 << nb) as i64;
+            let t = w.sched.ntasks() as i64;
+            ok = run_label(&mut w, &mut out, vec![L_START, t, OP_RETAIN, mask, nb]) && run_task(&mut w, &mut out, r, t, 0);
+        }
+        let k = 1 + r.below(n as u64);
+        for _ in 0..k {
+            if !ok {
+                break;
+            }
+            let t = w.sched.ntasks() as i64;
+            ok = run_label(&mut w, &mut out, vec![L_START, t, OP_GET, 1, 0]) && run_task(&mut w, &mut out, r, t, 15);
+        }
+    }
+    if out.err.is_none() {
+        finish(&mut w, &mut out, true, false);
+    }
+    cleanup(w);
+    out
+}
+
 fn gen_trace(g: &mut Gen) -> TraceOut {
+    if g.profile == Profile::Order {
+        return gen_order_trace(g);
+    }
     let cfg = g.gen_cfg();
     let mut w = World::new(cfg.clone());
     let mut out = TraceOut {
@@ -961,6 +1036,176 @@ fn scenarios() -> Vec<(Cfg, Vec<Vec<i64>>)> {
     ]
 }
 
+// ---------------------------------------------------------------- free-running races
+/// Pairs of operations on real, unsynchronised threads (no baton, no schedule points needed):
+/// a search aid for race windows that contain no schedule point. Each scenario states the
+/// property's own at-rest clause as its post-condition. Not deterministic; a failure is
+/// reported with the scenario and the observed final state.
+fn stress(iter: usize) {
+    use std::sync::atomic::AtomicI64;
+    struct CObj(Arc<AtomicI64>, Arc<AtomicI64>);
+    impl Drop for CObj {
+        fn drop(&mut self) {
+            let _ = self.0.fetch_sub(1, Ordering::SeqCst);
+        }
+    }
+    struct CMgr {
+        live: Arc<AtomicI64>,
+        peak: Arc<AtomicI64>,
+    }
+    impl managed::Manager for CMgr {
+        type Type = CObj;
+        type Error = ();
+        async fn create(&self) -> Result<CObj, ()> {
+            let n = self.live.fetch_add(1, Ordering::SeqCst) + 1;
+            let _ = self.peak.fetch_max(n, Ordering::SeqCst);
+            Ok(CObj(self.live.clone(), self.peak.clone()))
+        }
+        async fn recycle(&self, _: &mut CObj, _: &Metrics) -> RecycleResult<()> {
+            Ok(())
+        }
+    }
+    type CPool = managed::Pool<CMgr>;
+    fn ready<F: std::future::Future>(f: F) -> Option<F::Output> {
+        use std::task::{Context, Poll, Wake, Waker};
+        struct W;
+        impl Wake for W {
+            fn wake(self: Arc<Self>) {}
+        }
+        let w = Waker::from(Arc::new(W));
+        let mut cx = Context::from_waker(&w);
+        let mut f = Box::pin(f);
+        match f.as_mut().poll(&mut cx) {
+            Poll::Ready(v) => Some(v),
+            Poll::Pending => None,
+        }
+    }
+    let nb = Timeouts { wait: Some(Duration::ZERO), create: None, recycle: None };
+    let mk = |max: usize| -> (CPool, Arc<AtomicI64>, Arc<AtomicI64>) {
+        let live = Arc::new(AtomicI64::new(0));
+        let peak = Arc::new(AtomicI64::new(0));
+        let p = CPool::builder(CMgr { live: live.clone(), peak: peak.clone() }).max_size(max).build().unwrap();
+        (p, live, peak)
+    };
+    let mut fails: Vec<String> = vec![];
+    let mut runs = 0usize;
+    // a persistent partner thread and spin hand-shakes: ~10^5 trials per second
+    use std::sync::atomic::AtomicUsize as AU;
+    type Job = Box<dyn FnOnce() + Send>;
+    let slot: Arc<Mutex<Option<Job>>> = Arc::new(Mutex::new(None));
+    let go = Arc::new(AU::new(0));
+    let done = Arc::new(AU::new(0));
+    let stop = Arc::new(std::sync::atomic::AtomicBool::new(false));
+    let partner = {
+        let (slot, go, done, stop) = (slot.clone(), go.clone(), done.clone(), stop.clone());
+        std::thread::spawn(move || {
+            let mut seen = 0;
+            loop {
+                while go.load(Ordering::Acquire) == seen {
+                    if stop.load(Ordering::Relaxed) {
+                        return;
+                    }
+                    std::hint::spin_loop();
+                }
+                seen += 1;
+                let job = slot.lock().unwrap().take().unwrap();
+                job();
+                done.store(seen, Ordering::Release);
+            }
+        })
+    };
+    let mut trial = 0usize;
+    let mut race = |a: Job, jitter: usize, b: &mut dyn FnMut()| {
+        *slot.lock().unwrap() = Some(a);
+        trial += 1;
+        go.store(trial, Ordering::Release);
+        for _ in 0..jitter {
+            std::hint::spin_loop();
+        }
+        b();
+        while done.load(Ordering::Acquire) != trial {
+            std::hint::spin_loop();
+        }
+    };
+    for i in 0..iter {
+        // S1: resize(k) races close()
+        {
+            let (p, _, _) = mk(1);
+            let p1 = p.clone();
+            let k = 2 + i % 4;
+            race(Box::new(move || p1.resize(k)), i % 41, &mut || p.close());
+            let st = p.status();
+            runs += 1;
+            if !p.is_closed() || st.max_size != 0 {
+                fails.push(format!("C06 resize({}) racing close(): closed={} status={:?}", k, p.is_closed(), st));
+            }
+        }
+        // S2: return of an object races close()
+        {
+            let (p, live, _) = mk(1);
+            let o = ready(p.timeout_get(&nb)).unwrap().unwrap();
+            race(Box::new(move || drop(o)), i % 37, &mut || p.close());
+            let st = p.status();
+            runs += 1;
+            if st.size != 0 || st.available != 0 || live.load(Ordering::SeqCst) != 0 {
+                fails.push(format!("C06 return racing close(): status={:?} live objects={}", st, live.load(Ordering::SeqCst)));
+            }
+        }
+        // S3: retain() with a slow predicate races a get on a full idle pool
+        if i % 8 == 0 {
+            let (p, _, peak) = mk(1);
+            drop(ready(p.timeout_get(&nb)).unwrap().unwrap());
+            let p1 = p.clone();
+            let mut g = None;
+            race(
+                Box::new(move || {
+                    let _ = p1.retain(|_, _| {
+                        for _ in 0..200 {
+                            std::hint::spin_loop();
+                        }
+                        true
+                    });
+                }),
+                i % 50,
+                &mut || g = ready(p.timeout_get(&nb)),
+            );
+            runs += 1;
+            if peak.load(Ordering::SeqCst) > 1 {
+                fails.push(format!("C01 get racing retain(): {} objects existed, max_size 1", peak.load(Ordering::SeqCst)));
+            }
+            drop(g);
+        }
+        // S4: shrink races a non-blocking get; afterwards the capacity must be the new limit
+        {
+            let (p, _, _) = mk(2);
+            let p1 = p.clone();
+            let mut g = None;
+            race(Box::new(move || p1.resize(0)), i % 29, &mut || g = ready(p.timeout_get(&nb)));
+            drop(g);
+            let again = ready(p.timeout_get(&nb));
+            runs += 1;
+            if let Some(Ok(_)) = again {
+                fails.push(format!("C07 resize(0) racing get: a get succeeded afterwards, status={:?}", p.status()));
+            }
+        }
+        if fails.len() >= 5 {
+            break;
+        }
+    }
+    stop.store(true, Ordering::Relaxed);
+    let _ = partner.join();
+    let mut s = String::new();
+    let _ = write!(s, "{{\"runs\":{},\"fails\":[", runs);
+    for (i, f) in fails.iter().enumerate() {
+        if i > 0 {
+            s.push(',');
+        }
+        let _ = write!(s, "\"{}\"", f.replace('"', "'"));
+    }
+    s.push_str("]}");
+    println!("{}", s);
+}
+
 fn ints(v: &[i64]) -> String {
     let mut s = String::from("[");
     for (i, x) in v.iter().enumerate() {
@@ -1042,6 +1287,7 @@ fn main() {
             let seed: u64 = args[2].parse().unwrap();
             let n: usize = args[3].parse().unwrap();
             let profile = match args[4].as_str() {
+                "order" => Profile::Order,
                 "core" => Profile::Core,
                 "resize" => Profile::Resize,
                 "close" => Profile::Close,
@@ -1059,6 +1305,7 @@ fn main() {
                 print_trace(i, &t);
             }
         }
+        Some("stress") => stress(args[2].parse().unwrap()),
         Some("exh") => {
             // exh <scenario index> <max depth> <max edges>
             let k: usize = args[2].parse().unwrap();
